@@ -278,7 +278,8 @@ def run_conc(d, args, tag, harness=H, timeout=300):
             findings.append(dict(kind="publish-count", detail="PUBLISH by %d #%d on channel %d replied %d; subscribed throughout: %d, possibly subscribed: %d" % (p["k"], p["seq"], p["ci"], p["n"], len(lo), len(hi))))
     stats = dict(publishes=len(pubs), connections=len(conns), pushes_checked=nmsgs,
                  abrupt=sum(1 for c in conns.values() if any(e[0] == "END" and e[1] == "abrupt" for e in c["ev"])),
-                 unsubscribes=sum(1 for c in conns.values() for e in c["ev"] if e[0] == "UNSUB"))
+                 unsubscribes=sum(1 for c in conns.values() for e in c["ev"] if e[0] == "UNSUB"),
+                 dropped_by_write_deadline=sum(1 for c in conns.values() for e in c["ev"] if e[0] == "DROPPED"))
     return findings, stats
 
 
@@ -370,13 +371,13 @@ def run(ctx):
         lock_ok = facts is not None and bad == []
         extra = {} if lock_ok else dict(lock_obligation_broken=bad if isinstance(bad, list) else str(bad))
         # ---- (D) sequential differential run
-        ncases = 2000 if not thorough else 12000
+        ncases = 2000 if not thorough else 30000
         cases = gen_pubsub.gen_programs(ctx.seed, ncases)
         harnesses = [H] + ([HR] if thorough else [])
         first_bad = None
         nfixed = len(gen_pubsub.fixed_cases())
         for hn in harnesses:
-            todo = cases if hn == H else cases[: 1500]
+            todo = cases if hn == H else cases[: 3000]
             # the fixed cases first, then batches: stop at the first batch with a failure
             batches = [todo[:nfixed]] + [todo[i:i + 200] for i in range(nfixed, len(todo), 200)]
             for bi, batch in enumerate(batches):
@@ -412,7 +413,7 @@ def run(ctx):
         if rc == 0:
             runs = [(ctx.seed, 4, 5, 1500, 3, 1, 60), (ctx.seed + 1, 6, 6, 1200, 2, 0, 60), (ctx.seed + 2, 3, 8, 2500, 1, 1, 60)]
             if thorough:
-                runs = [(ctx.seed + i, 4 + i % 4, 4 + i % 5, 4000, 1 + i % 4, i % 2, 240) for i in range(12)]
+                runs = [(ctx.seed + i, 4 + i % 4, 4 + i % 5, 4000, 1 + i % 4, i % 2, 240) for i in range(24)]
             for i, a in enumerate(runs):
                 hn = HR if thorough and i % 2 == 0 else H
                 findings, st = run_conc(d, a, "conc%d" % i, harness=hn, timeout=a[6] + 120)
